@@ -78,6 +78,13 @@ fn install_hooks(cfg: &Cfg) {
         bloom_key: ((cfg.p1 as u64) << 32) | cfg.p2 as u64,
         bloom_queries: 0,
         bloom_forced: 0,
+        // tuning knob varied per run (hook H6): the op count above which a change is written by the row-wise encoder
+        // (built-in: 10000, which no generated change reaches)
+        rowwise_threshold: match cfg.p2 % 8 {
+            0 => Some(3),
+            1 => Some(40),
+            _ => None,
+        },
     });
 }
 
